@@ -7,6 +7,7 @@ For one operation (a function definition) and one requirement `Req`:
 decided by evaluating the operation's guard program (prog.py) over all finite models (terms.py).
 """
 import itertools
+import re
 
 from .. import astx
 from .. import prog as P
@@ -159,6 +160,12 @@ def check_operation(db, func, req_text, kind="A", static_conds=None, assume=None
             kind = "S"   # an object under construction has no earlier state to preserve
             if "size(this)" in P.prog_atoms(prog) or "size(this)" in T.atoms(req):
                 extra.append(("cmp", "==", T.canonical("size", "this"), T.c(0)))
+            # sub-objects the constructor does not initialise itself are default-constructed: their containers are empty
+            inited = set(i.get("field") for i in (func.get("inits") or []) if i.get("field"))
+            for a in sorted(P.prog_atoms(prog)):
+                mm = re.match(r"^size\(this\.(\w+)\)$", a)
+                if mm and mm.group(1) not in inited and "#" not in a:
+                    extra.append(("cmp", "==", T.var(a, "st"), T.c(0)))
         sites = [nd for nd in P.flatten(prog) if nd[0] == "guard"]
         res.guards = max(res.guards, len(sites))
         for nd in sites:
